@@ -51,6 +51,9 @@ import (
 
 const LocalPath = "sim.local/pkg"
 
+// betweenFile is restored between a RestoreFile and the printing of its result (reuse mode).
+const betweenFile = "// Package between has comments of its own.\npackage between\n\nimport \"fmt\"\n\n// B prints.\nfunc B() {\n\t// inside\n\tfmt.Println(\"b\") // trailing\n}\n\n// end\n"
+
 // shared identifier resolver kinds
 const (
 	identGoastNew     = iota // goast.New(): name resolver defaulted lazily on first use
@@ -58,10 +61,11 @@ const (
 	identGoastMap            // goast.WithResolver(guess.WithMap(truth))
 	identGoastSimple         // goast.WithResolver(simple.New(truth))
 	identGoastGobuild        // goast.WithResolver(gobuild over the stub finder)
+	identGoastGopackages     // goast.WithResolver(gopackages.WithHints(truth)): every lookup is answered from the hints
 	numIdentKinds
 )
 
-var identKindNames = [...]string{"goast.New()", "goast.WithResolver(guess.New())", "goast.WithResolver(guess.WithMap)", "goast.WithResolver(simple.New)", "goast.WithResolver(gobuild/stub)"}
+var identKindNames = [...]string{"goast.New()", "goast.WithResolver(guess.New())", "goast.WithResolver(guess.WithMap)", "goast.WithResolver(simple.New)", "goast.WithResolver(gobuild/stub)", "goast.WithResolver(gopackages.WithHints)"}
 
 // truthWithout is the accurate name map minus the paths that are to fail: for the resolvers that can
 // fail by themselves (simple, gobuild over the stub finder) the failure then happens INSIDE dst's
@@ -94,6 +98,8 @@ func newIdentResolver(kind int, failPaths map[string]bool) resolver.DecoratorRes
 		return goast.WithResolver(wrap(guess.New()))
 	case identGoastMap:
 		return goast.WithResolver(wrap(faults.NameResolver(faults.KindGuessMap, gen.Truth())))
+	case identGoastGopackages:
+		return goast.WithResolver(faults.NameResolver(faults.KindGopackagesHints, gen.Truth()))
 	case identGoastSimple:
 		return goast.WithResolver(faults.NameResolver(faults.KindSimple, truthWithout(failPaths)))
 	default:
@@ -355,8 +361,28 @@ func execOnce(p pipeSpec, e env, y func(string), out *[]opResult, shared *parsed
 		}
 	}
 	var buf bytes.Buffer
-	err = fr.Fprint(&buf, f)
-	*out = append(*out, opResult{Op: "restore", Out: buf.String(), Err: errClass(err), Pkgs: strings.Join(pw.SeenPaths(), ",")})
+	if p.reuseFR && p.split {
+		// RestoreFile now, print later: "alone" the file is printed straight away; the worker
+		// that reuses its FileRestorer restores another (small) file in between, which must not
+		// disturb the *ast.File it already handed out
+		var af *ast.File
+		af, err = fr.RestoreFile(f)
+		paths := strings.Join(pw.SeenPaths(), ",")
+		if err == nil && fs != nil {
+			yield("op:restore-between")
+			if g, gerr := decorator.NewDecoratorWithImports(token.NewFileSet(), LocalPath, &faults.Ident{Inner: e.ident}).Parse(betweenFile); gerr == nil {
+				fr.RestoreFile(g)
+			}
+		}
+		if err == nil {
+			yield("op:print-restored")
+			err = format.Node(&buf, fr.Fset, af)
+		}
+		*out = append(*out, opResult{Op: "restore", Out: buf.String(), Err: errClass(err), Pkgs: paths})
+	} else {
+		err = fr.Fprint(&buf, f)
+		*out = append(*out, opResult{Op: "restore", Out: buf.String(), Err: errClass(err), Pkgs: strings.Join(pw.SeenPaths(), ",")})
+	}
 	if err != nil {
 		return
 	}
@@ -395,7 +421,7 @@ func drawPipe(run *core.Run, conflicts bool, noBroken ...bool) pipeSpec {
 		p.src = string(cur)
 	}
 	if p.kind != pipePlain && p.kind != pipeParseShared && p.big == "" {
-		p.script = edits.Script(t, 3, conflicts)
+		p.script = edits.Script(t, 3, conflicts, !noExotic)
 		if t.Bool(1, 3) {
 			p.alias = map[string]string{}
 			n := 1 + t.Draw(3)
@@ -409,6 +435,9 @@ func drawPipe(run *core.Run, conflicts bool, noBroken ...bool) pipeSpec {
 }
 
 var theSched *sched.Sched
+
+// noExotic is set while a run's workload is drawn if no edit may use a path the name tables lack.
+var noExotic bool
 
 // Init maps the scheduler region, arms the race oracle and checks it with a canary.
 func Init() error {
@@ -580,11 +609,15 @@ func runScheduled(run *core.Run) {
 	nworkers := 2 + t.Draw(5)
 	conflicts := t.Bool(1, 2)
 	w.identKind = t.Draw(numIdentKinds)
-	w.nameKind = []int{faults.KindGuessMap, faults.KindSimple, faults.KindHints, faults.KindGuess, faults.KindGobuild}[t.Draw(5)]
-	if w.identKind != identGoastNew && t.Bool(1, 6) {
+	w.nameKind = []int{faults.KindGuessMap, faults.KindSimple, faults.KindHints, faults.KindGuess, faults.KindGobuild, faults.KindGopackagesHints}[t.Draw(6)]
+	// a hints-only gopackages resolver is read-only only while every lookup hits the hints (a miss
+	// would run `go list`): no unknown paths and no failing paths in such runs
+	hintsOnly := w.identKind == identGoastGopackages || w.nameKind == faults.KindGopackagesHints
+	noExotic = hintsOnly
+	if w.identKind != identGoastNew && !hintsOnly && t.Bool(1, 6) {
 		w.failPaths = map[string]bool{gen.Pool[t.Draw(len(gen.Pool))].Path: true}
 	}
-	if (w.nameKind == faults.KindSimple || w.nameKind == faults.KindGobuild) && t.Bool(1, 5) {
+	if (w.nameKind == faults.KindSimple || w.nameKind == faults.KindGobuild) && !hintsOnly && t.Bool(1, 5) {
 		// a package the shared restore-side resolver cannot name: whoever asks first gets the error,
 		// and so must everybody who asks later
 		w.nameFailPaths = map[string]bool{gen.Pool[t.Draw(len(gen.Pool))].Path: true}
@@ -861,6 +894,7 @@ func keys(m map[string]bool) []string {
 // repetition, because Go's map order is seeded privately by the runtime.
 func runRepeat(run *core.Run) {
 	t := run.T
+	noExotic = false
 	R := 8
 	if run.Tier == "thorough" {
 		R = 32
@@ -896,6 +930,9 @@ func runRepeat(run *core.Run) {
 	}
 	identKind := t.Draw(numIdentKinds)
 	nameKind := []int{faults.KindGuessMap, faults.KindSimple, faults.KindHints, faults.KindGuess, faults.KindGobuild}[t.Draw(5)]
+	if identKind == identGoastGopackages {
+		identKind = identGoastMap // repetition runs use unknown paths: keep `go list` out of it
+	}
 	withDir := t.Bool(1, 4)
 	run.Describe("repeat x%d: ident %s, name %s, extras=%v, edits=%v alias=%v, ParseDir=%v\n%s", R, identKindNames[identKind], faults.KindName(nameKind), p.extras, p.script, p.alias, withDir, p.src)
 	run.Count("repeat-runs")
